@@ -9,7 +9,7 @@ from vf import gen, plumbing, probes
 PID = "C05"
 ANCHORS = ["pyoma2.functions.plscf:pLSCF", "pyoma2.functions.plscf:rmfd2ac", "pyoma2.functions.plscf:ac2mp_poly", "pyoma2.functions.plscf:pLSCF_poles",
            "pyoma2.algorithms.plscf:pLSCF.run"]
-REQUIRED_MONITORS = ["history: other sign then again", "history: poles extracted twice", "coefficients@pLSCF", "poles-at-order-n@pLSCF_poles", "roots@rmfd2ac(every call)", "columns@pLSCF_poles(every call)",
+REQUIRED_MONITORS = ["history: other sign then again", "history: poles extracted twice", "coefficients@pLSCF", "poles-at-order-n@pLSCF_poles", "roots@rmfd2ac(every call)", "columns@pLSCF_poles(every call)", "columns@pLSCF_poles(part of the model list)",
                      "roots@rmfd2ac(inside pLSCF.run)", "columns@pLSCF_poles(inside pLSCF.run)"]
 ALL_STATES = ["sgn=-1", "sgn=+1", "ordmax=n", "ordmax>n", "some roots unstable", "all roots stable", "Nref<Nch", "Nref>Nch", "Nref=Nch", "n=1", "n>=6"]
 REQUIRED_STATES = ["sgn=-1", "sgn=+1", "ordmax=n", "ordmax>n", "some roots unstable", "Nref<Nch", "Nref>Nch", "n=1", "spectrum magnitude < 1e-5", "all roots real, some negative", "a root with damping ratio below 1e-5"]
@@ -287,6 +287,12 @@ def run_rational(ctx, rng):
             check_rmfd2ac(ctx, "roots@rmfd2ac(every call)", A_den, B_num, A, C)
     check_poles_call(ctx, "columns@pLSCF_poles(every call)", Ad[:n], Bn[:n], dt, "per", 1024, tuple(np.asarray(t)[:(n + 1) * Nch, :n] if i != 2 else np.asarray(t)[:(n + 1) * Nch, :n, :] for i, t in enumerate(out))
                      if ordmax > n else out)
+    # the routine takes a LIST of models: any part of the list (the orders from ordmin on, every second order, the one model of interest)
+    # gives for each model the poles of THAT model - its order is the model's own, not its position in the list
+    for part in ([n - 1], list(range(max(0, n - 2), n)), list(range(0, n, 2)) if n >= 2 else [0]):
+        Ap, Bp = [Ad[j] for j in part], [Bn[j] for j in part]
+        outp = plscf.pLSCF_poles(Ap, Bp, dt, "per", 1024)
+        check_poles_call(ctx, "columns@pLSCF_poles(part of the model list)", Ap, Bp, dt, "per", 1024, outp)
     # the statement's own clause: order n against the TRUE polynomial
     Fns, Xis, Phis, Lam = out
     ctx.ev("poles-at-order-n@pLSCF_poles")
